@@ -201,6 +201,10 @@ Section ImgIter.
     | o :: r => let (s1, x) := step s o in let (s2, xs) := run s1 r in (s2, x :: xs)
     end.
 
+  (** the state a history leads to *)
+  Definition after (repeat pos0 : Z) (z0 : Size) (ops : list op) : st :=
+    fst (run (init repeat pos0 z0) ops).
+
   (** what can be seen after each operation: the outcome, image.tell(), loop_no, and whether
       the iterator's PIL image is still to be closed *)
   Fixpoint trace (s : st) (ops : list op) : list (outcome * Z * option Z * bool) :=
